@@ -949,6 +949,11 @@ def lower_bound(e, facts, lets, depth=0):
         return c
     lb = _fact_lb(ir.place_str(e), facts)
     best = lb if lb is not None else 0
+    # an unsigned value that is known to differ from 0 is at least 1
+    if (e.get("t") or "") in ("u8", "u16", "u32", "u64", "u128", "usize"):
+        pl = ir.place_str(e)
+        if any(f[0] == "cmp" and f[2] == "!=" and ((f[1] == pl and _const_of(f[3]) == 0) or (f[3] == pl and _const_of(f[1]) == 0)) for f in facts):
+            best = max(best, 1)
     if e.get("k") == "path" and e.get("r") == "local" and depth < 6:
         init = lets.get(e["hid"])
         if init is not None:
